@@ -21,6 +21,7 @@ esac
 cd "$REPO"
 case "$engine" in
   gc) $GO build -o "$B/partial-aftersun" ./cmd/partial-aftersun || exit 2 ;;
+  seq) $GO build -o "$B/recompute-cache" ./cmd/recompute-cache || exit 2 ;;
   read) $GO build -o "$B/skylight" ./cmd/skylight || exit 2 ;;
 esac
 exec $GO test -c -tags verif -vet=off -modfile="$B/go.mod" -overlay="$B/overlay-$engine.json" -o "$B/$engine.test" "$@" "$pkg"
